@@ -249,7 +249,7 @@ pub fn run(ctx: &Ctx) {
         ctx,
         Pt {
             name: "c17.random",
-            cases: ctx.scale(20_000, 1_000_000),
+            cases: ctx.scale(300_000, 2_000_000),
             max_len: 600,
             decode: &decode,
             oracle: &oracle,
